@@ -27,7 +27,16 @@ def run(rep, tier, seed):
                 h = rng.choice(sorted(g.fh)); g.emit("flush %d" % h)
             else:
                 g.step()
-        scripts.append(head + g.lines + ["drop_all", "unmount"])
+        # closing by drop alone (no explicit flush), with a clock that does not advance: an in-place overwrite changes neither
+        # size nor time stamp, an empty file created in a sub-directory changes no entry of an open handle
+        k = rng.range(600, 1400)
+        tail = ["drop_all",
+                "create_file 0 %s 70" % hexs("durable one.bin"), "write_pat 70 %d 11" % (k + rng.range(100, 900)), "drop_file 70",
+                "open_file 0 %s 71" % hexs("durable one.bin"), "seek 71 start %d" % rng.range(0, k - 200), "write_pat 71 %d 12" % rng.range(1, 200), "drop_file 71",
+                "create_dir 0 %s 72" % hexs("durable dir"), "drop_dir 72",
+                "create_file 0 %s 73" % hexs("durable dir/empty.txt"), "drop_file 73",
+                "open_file 0 %s 74" % hexs("durable one.bin"), "write_pat 74 %d 13" % rng.range(1, 300), "flush 74", "seek 74 start 3", "write_pat 74 5 14", "drop_file 74"]
+        scripts.append(head + g.lines + tail + ["drop_all", "unmount"])
     flags = ("tree", "crash") if tier == "quick" else ("tree", "crash")
     judged = sessions.run_judged(scripts, flags=flags, shards=16)
     total_checks = 0; flushes = 0
@@ -41,15 +50,22 @@ def run(rep, tier, seed):
             if oi > upto:
                 break
             ok = False
-            rep.violation("[C14] power cut after device write #%d of %s: file %s (flushed earlier, not modified since) is not found with its flushed content"
-                          % (wi, sc.short(jd.ops[oi].line, 60), bytes.fromhex(path).decode("utf-8", "replace") if path != "-" else "/"),
-                          {"script": sc.script_prefix(jd, oi), "crash_after_write": wi})
+            fname = bytes.fromhex(path).decode("utf-8", "replace") if path != "-" else "/"
+            if wi == -1:
+                rep.violation("[C14] %s returned Ok but the storage was not flushed after the last write that file %s needs: a power cut losing "
+                              "everything after the last device flush does not leave the file with the content it had when the call returned"
+                              % (sc.short(jd.ops[oi].line, 60), fname), {"script": sc.script_prefix(jd, oi), "crash_after_write": "last-device-flush"})
+            else:
+                rep.violation("[C14] power cut after device write #%d of %s: file %s (flushed earlier, not modified since) is not found with its flushed content"
+                              % (wi, sc.short(jd.ops[oi].line, 60), fname),
+                              {"script": sc.script_prefix(jd, oi), "crash_after_write": wi})
             break
         for oi, o in enumerate(jd.ops[:upto]):
-            if sc.opname(o) == "flush" and o.kind == "ok":
+            if sc.opname(o) in ("flush", "drop_file") and o.kind == "ok":
                 flushes += 1
                 evs = [e for e in o.events if e[0] in ("w", "f")]
-                if not evs or evs[-1][0] != "f":
+                # flush: always ends with a device flush; drop: whatever it writes must be followed by a device flush
+                if (sc.opname(o) == "flush" and not evs) or (evs and evs[-1][0] != "f"):
                     ok = False
                     rep.violation("[C14] %s returned Ok but the storage was not flushed after its last write" % sc.short(o.line, 40),
                                   {"script": sc.script_prefix(jd, oi)})
